@@ -367,11 +367,15 @@ static int p_cfg(const char *tok)
 
 static void p_at_end(void)
 {
-	int i, zombies = 0, unreaped = qt - qh;
+	int i, zombies = 0, sz = 0, unreaped = qt - qh;
 	for (i = 0; i < MAXCH; i++)
-		if (CH[i].used && !CH[i].alive && !CH[i].reaped)
+		if (CH[i].used && !CH[i].alive && !CH[i].reaped) {
 			zombies++;
-	printf("T%d PROC-END zombies=%d unreaped_statuses=%d\n", mt_me(), zombies, unreaped);
+			if (i < 32)	/* slots below 32 are children the application forked itself (`stranger`): reaping them after
+					 * the library has no interest left is the application's business */
+				sz++;
+		}
+	printf("T%d PROC-END zombies=%d unreaped_statuses=%d stranger_zombies=%d\n", mt_me(), zombies, unreaped, sz);
 }
 
 static struct mt_ext proc_ext = {
